@@ -6,16 +6,16 @@ import (
 )
 
 const (
-	numStates       = 12
-	numPosBitsMax   = 4
-	numLenToPos     = 4
-	numAlignBits    = 4
-	startPosModel   = 4
-	endPosModel     = 14
-	numFullDist     = 1 << (endPosModel >> 1)
-	matchMinLen     = 2
-	MaxMatchLen     = 273
-	EOSDist         = 0xFFFFFFFF
+	numStates     = 12
+	numPosBitsMax = 4
+	numLenToPos   = 4
+	numAlignBits  = 4
+	startPosModel = 4
+	endPosModel   = 14
+	numFullDist   = 1 << (endPosModel >> 1)
+	matchMinLen   = 2
+	MaxMatchLen   = 273
+	EOSDist       = 0xFFFFFFFF
 )
 
 // OpKind enumerates the LZMA operations.
